@@ -189,7 +189,28 @@ def x1_thread_bodies(crate):
 
 
 def x3_hashset(crate):
-    return None
+    """X3: the eviction sampler's `std::collections::{BinaryHeap, HashSet}` (intractable for CBMC: SipHash +
+    hashbrown SIMD probing; Vec-backed heap with raw-pointer sifting) are bound to small stand-ins under
+    cfg(kani).  Only the import line changes."""
+    rel = 'src/cache/policy/cache_weight.rs'
+    path = os.path.join(crate, rel)
+    text = open(path, encoding='utf-8').read()
+    m = re.search(r'(?m)^use std::collections::\{([^}]*)\};[ \t]*$', text)
+    if not m:
+        raise InstrumentError('X3: `use std::collections::{..};` not found in ' + rel)
+    names = [n.strip() for n in m.group(1).split(',') if n.strip()]
+    swapped = [n for n in names if n in ('HashSet', 'BinaryHeap')]
+    if not swapped:
+        raise InstrumentError('X3: neither HashSet nor BinaryHeap is imported from std::collections in ' + rel)
+    rest = [n for n in names if n not in swapped]
+    new = ''
+    if rest:
+        new += 'use std::collections::{%s};\n' % ', '.join(rest)
+    new += '#[cfg(kani)] use crate::verif_stubs::{%s};\n#[cfg(not(kani))] use std::collections::{%s};' % (', '.join(swapped), ', '.join(swapped))
+    text = text[:m.start()] + new + text[m.end():]
+    open(path, 'w').write(text)
+    return ('X3 %s: imports of %s bound to the stand-ins in crate::verif_stubs under cfg(kani) (assumed contracts: HashSet is a set; '
+            'BinaryHeap::pop returns an element that no other element exceeds under Ord)' % (rel, ' and '.join(swapped)))
 
 
 def apply_all(crate):
